@@ -205,6 +205,10 @@ pub struct AgentCtx {
     /// Set by the agent's waker.
     woken: AtomicBool,
     events: Mutex<Vec<Event>>,
+    /// Guards created while this agent held the global lock (the scans of eviction candidates and of idle
+    /// entries): they get their ids when the agent has left the critical section, in creation order — the point
+    /// at which the scan takes effect when other agents ran in the middle of it (fine-grained mode).
+    pending_guards: Mutex<Vec<Key>>,
     /// Set by the async eviction callback right before it returns `Pending`.
     cb_pending: Mutex<Option<Vec<Gkv>>>,
     /// The pending `CbReturn` command for the async callback's second poll.
@@ -253,6 +257,7 @@ impl AgentCtx {
             cv: Condvar::new(),
             woken: AtomicBool::new(false),
             events: Mutex::new(Vec::new()),
+            pending_guards: Mutex::new(Vec::new()),
             cb_pending: Mutex::new(None),
             cbret: Mutex::new(None),
             free_run: AtomicBool::new(false),
@@ -283,6 +288,23 @@ impl AgentCtx {
 
     pub fn push_event(&self, e: Event) {
         self.events.lock().unwrap().push(e);
+    }
+
+    /// Number the guards created inside the critical section the agent has just left.
+    pub fn flush_pending_guards(&self) {
+        let keys: Vec<Key> = std::mem::take(&mut *self.pending_guards.lock().unwrap());
+        for key in keys {
+            let gid = self.run.new_gid(key);
+            self.push_event(Event::GuardCreated { gid, key });
+        }
+    }
+
+    /// The agent received a guard from the library: give it to the client's table.
+    pub fn adopt(&self, g: Box<dyn GuardLike>) -> Gkv {
+        if verif_hooks::glock_depth() == 0 {
+            self.flush_pending_guards();
+        }
+        self.run.adopt(g)
     }
 
     pub fn make_waker(self: &Arc<Self>) -> Waker {
@@ -469,6 +491,9 @@ struct Handler;
 impl verif_hooks::Handler for Handler {
     fn at(&self, site: Site) {
         let Some(cx) = current() else { return };
+        if verif_hooks::glock_depth() == 0 {
+            cx.flush_pending_guards();
+        }
         match site {
             Site::Entries | Site::KeyTry(_) | Site::KeyWait(_) => {
                 if cx.free_run.load(Ordering::SeqCst) {
@@ -497,8 +522,12 @@ impl verif_hooks::Handler for Handler {
             }
             Site::GuardCreated(h) => {
                 let key = key_of_hash(h);
-                let gid = cx.run.new_gid(key);
-                cx.push_event(Event::GuardCreated { gid, key });
+                if verif_hooks::glock_depth() != 0 {
+                    cx.pending_guards.lock().unwrap().push(key);
+                } else {
+                    let gid = cx.run.new_gid(key);
+                    cx.push_event(Event::GuardCreated { gid, key });
+                }
             }
             Site::UnlockBegin(h) => cx.push_event(Event::UnlockBegin(key_of_hash(h))),
             Site::CancelBegin(h) => cx.push_event(Event::CancelBegin(key_of_hash(h))),
